@@ -422,6 +422,29 @@ theorem maximal_node_run_terminated (sp : Spec) (hce : sp.CoopEmpty) (hkn : sp.K
   exact ⟨hfc, (reach_inv h).done (Or.inr hfc),
     Props.resolved_last_partial sp hcoop _ (Reach.mono noStopInWindows_closed hw) hfc⟩
 
+/-! ### the final step: `MarkChanFullyClosed` BEFORE `WipeHistory` (`ChainArbitrator.ResolveContract`) -/
+
+/-- the order of the code: once the channel is marked fully closed, a stop at any later instant
+    (before or after the log is wiped) restarts into the terminated state: no arbitrator is created. -/
+theorem mark_before_wipe_safe (s : Sys) (h : s.chan.fullyClosed = true) :
+    (restart s).pc = .finished ∧ (restart s).chan.fullyClosed = true ∧ (restart s).active = [] := by
+  simp [restart, h]
+
+/-- the reversed order (seeded change C13_11): the log is wiped, the channel not yet marked. -/
+def wipedNotMarked : Sys :=
+  { Props.plain with chan := { Props.plain.chan with fullyClosed := false } }
+
+/-- ... a stop there is never recovered from: the arbitrator is re-created from StateDefault with
+    the reconstructed close trigger, fast-forwards to StateContractClosed, finds no contract
+    resolutions in the wiped log and stays there - no node action is enabled, the channel is never
+    marked fully closed. -/
+theorem wipe_before_mark_stuck :
+    Props.plain.chan.fullyClosed = true ∧ Props.plain.log = {} ∧
+    (let t := run Props.specFar (restart wipedNotMarked) [.main, .main, .main]
+     t.chan.fullyClosed = false ∧ t.log.state = .contractClosed ∧ t.log.contracts = [] ∧
+       t.active = [] ∧ (mainStep Props.specFar t).isNone = true) := by
+  decide
+
 /-! non-vacuity: `midFar` (two stops, complete facts, not finished) has a node step -/
 example : ∃ s', NodeStep Props.specFar s' Props.midFar := by
   have hr : Reach Props.specFar (outsideWindows Props.specFar) Props.midFar :=
